@@ -27,6 +27,21 @@ def or (a : Res Bool) (b : Unit → Res Bool) : Res Bool :=
 
 def not (a : Res Bool) : Res Bool := a.map (!·)
 
+/-- `if c { a } else { b }` (also: `if c { return a; } …rest` with `b` = the rest) -/
+def ifB (c : Res Bool) (a b : Unit → Res Bool) : Res Bool :=
+  match c with
+  | .ok true => a ()
+  | .ok false => b ()
+  | .err e => .err e
+  | .panic => .panic
+
+/-- `let x = e; rest` for a numeric `e` -/
+def bindN (e : Res Nat) (rest : Nat → Res Bool) : Res Bool :=
+  match e with
+  | .ok x => rest x
+  | .err err => .err err
+  | .panic => .panic
+
 def lit (n : Nat) : Res Nat := .ok n
 
 /-- `x.len()` -/
@@ -87,6 +102,9 @@ def firstArm : List (Unit → Res Bool) → Res Nat
   cases b <;> rfl
 @[simp] theorem armStep_ok (b : Bool) (rest : Unit → Res Nat) :
     armStep (.ok b) rest = if b then .ok 0 else (rest ()).map (· + 1) := by cases b <;> rfl
+@[simp] theorem ifB_ok (c : Bool) (a b : Unit → Res Bool) : ifB (.ok c) a b = if c then a () else b () := by
+  cases c <;> rfl
+@[simp] theorem bindN_ok (x : Nat) (rest : Nat → Res Bool) : bindN (.ok x) rest = rest x := rfl
 @[simp] theorem cmp_ok (f : Nat → Nat → Bool) (x y : Nat) : cmp f (.ok x) (.ok y) = .ok (f x y) := rfl
 @[simp] theorem cmp_panic_r (f : Nat → Nat → Bool) (x : Nat) : cmp f (.ok x) .panic = .panic := rfl
 @[simp] theorem cmp_panic_l (f : Nat → Nat → Bool) (b : Res Nat) : cmp f .panic b = .panic := by cases b <;> rfl
